@@ -291,7 +291,12 @@ func (w *world) run() {
 	}
 	byz := map[int]bool{}
 	for len(byz) < f {
-		byz[c.Choose(w.n, "byzidx")] = true
+		// (must terminate under replay, where all remaining draws may be 0)
+		i := c.Choose(w.n, "byzidx")
+		for byz[i] {
+			i = (i + 1) % w.n
+		}
+		byz[i] = true
 	}
 	out.Params["byzantine"] = len(byz)
 	other, _ := w.sks[0].Sign(append([]byte("other"), w.msgB...), hasher)
